@@ -47,6 +47,9 @@ def gen_prim_case(g, cid):
                 a = val()
                 b = min(hi, a + r.randint(0, 40))
                 arms.append(Arm(f"V{i}", "range", (a, b)))
+            elif roll < 0.79 and not pc.ref:
+                # a pattern that is nothing but a path to a constant (by-value conversions only: a constant does not match a reference)
+                arms.append(Arm(f"V{i}", "path", r.choice(["MAX", "MIN"])))
             elif roll < 0.82:
                 arms.append(Arm(f"V{i}", "from", val()))
             elif roll < 0.89:
@@ -108,6 +111,8 @@ def pat_src(pc, a):
         return f"..={litsrc(pc, a.data)}"
     if a.kind == "or":
         return " | ".join(litsrc(pc, x) for x in a.data)
+    if a.kind == "path":
+        return f"{pc.prim}::{a.data}"
     return "_"
 
 
@@ -122,6 +127,8 @@ def cond_src(pc, a, x):
         return f"{x} <= {litsrc(pc, a.data)}"
     if a.kind == "or":
         return "(" + " || ".join(f"{x} == {litsrc(pc, v)}" for v in a.data) + ")"
+    if a.kind == "path":
+        return f"{x} == {pc.prim}::{a.data}"
     return "true"
 
 
@@ -162,7 +169,7 @@ def render_case(pc, g):
             attrs.append(Instr("pattern", "pattern", container=None, tokens=pat_src(pc, a)))
             if pc.into:
                 rep = a.data[0] if a.kind in ("range", "or") else a.data
-                into_vals[a.vname] = litsrc(pc, rep)
+                into_vals[a.vname] = litsrc(pc, rep) if a.kind != "path" else f"{pc.prim}::{a.data}"
                 attrs.append(Instr("into" if g.chance(0.5) else ("owned_into" if not pc.ref else "ref_into"), "map", container=None, member=None, action=into_vals[a.vname], braced=True))
         it.variants.append(Variant(a.vname, "unit", [], attrs))
     if pc.catch_all:
@@ -216,6 +223,8 @@ def render_case(pc, g):
         lo, hi = PRIMS[pc.prim]
         for a in pc.arms:
             ds = a.data if isinstance(a.data, (list, tuple)) else [a.data]
+            if a.kind == "path":
+                ds = [PRIMS[pc.prim][1] if a.data == "MAX" else PRIMS[pc.prim][0]]
             for x in ds:
                 for y in (x - 1, x, x + 1):
                     if lo <= y <= hi:
@@ -257,6 +266,8 @@ def unused_value(pc):
     used = set()
     for a in pc.arms:
         ds = a.data if isinstance(a.data, (list, tuple)) else [a.data]
+        if a.kind == "path":
+            ds = [PRIMS[pc.prim][1] if a.data == "MAX" else PRIMS[pc.prim][0]]
         used |= set(ds)
     if pc.prim in PRIMS:
         lo, hi = PRIMS[pc.prim]
